@@ -692,6 +692,7 @@ def _dot_csr_csr_type(dt1, dt2):
                         head = k
                         length += 1
 
+            row_start = nnz
             for _ in range(length):
                 if next_[head] != -1:
                     indices[nnz] = head
@@ -704,14 +705,12 @@ def _dot_csr_csr_type(dt1, dt2):
                 next_[temp] = -1
                 sums[temp] = 0
 
+            # the linked list yields the columns in reverse first-touch order: sort the row
+            order = np.argsort(indices[row_start:nnz])
+            indices[row_start:nnz] = indices[row_start:nnz][order]
+            data[row_start:nnz] = data[row_start:nnz][order]
             indptr[i + 1] = nnz
 
-        if len(indices) == (n_col * n_row):
-            for i in range(len(indices) // n_col):
-                j = n_col * i
-                k = n_col * (1 + i)
-                data[j:k] = data[j:k][::-1]
-                indices[j:k] = indices[j:k][::-1]
         return data, indices, indptr
 
     return _dot_csr_csr
